@@ -25,7 +25,15 @@ RULE = ("case = (real directory chain of depth <=4 in a temporary directory, eac
         "every k-th case also runs the real Program with -r/-c and reads the project-level invoke.yaml marker.  quick: all "
         "layouts of depth <=2 x all starts x all forms + random deeper ones; thorough: all layouts of depth <=4.  Virtual "
         "layouts (os shim for find() only) add the filesystem root.  Non-trivial = at least one candidate in the tree; "
-        "distinct = distinct (layout, name, start, form)")
+        "distinct = distinct (layout, name, start, form).  Histories on ONE loader object (case = one or two directory "
+        "chains of 2-4 levels holding candidates for BOTH collection names + loaders + explicit list of steps; judged after "
+        "every call for the start point and the layout of THAT call): a loader without explicit start used from several "
+        "working directories in sequence (other levels, the other chain), loaders with an explicit start - absolute, "
+        "trailing separator, tasks.search_root from a Config, relative - used after os.chdir (must not follow the working "
+        "directory), two or three loader objects interleaved, `.start` read in between, find and load mixed, the two "
+        "collection names asked in a row, candidates created / removed between the calls; loaders are created in a "
+        "directory other than those they are used in; after every load the project invoke.yaml is read through Config; "
+        "a history is non-trivial when a loader is used again from another working directory")
 TRUSTED = ["Lean 4.33 kernel", "axioms propext/Classical.choice/Quot.sound only",
            "harness/props/c20.py correspondence + canonicalisation",
            "CPython os.path.abspath / os.listdir / os.path.exists / importlib spec loading (modelled: absPath, FS.ls, FS.ex)",
@@ -35,7 +43,11 @@ ASSUMPTIONS = ["POSIX paths; no symlinks on the way up (abspath does not resolve
                "oracle accepts either reading",
                "when name.py and name/ exist side by side the property does not say which is loaded; the code takes the "
                "module (model: module beats package; oracle: either)",
-               "find_complete assumes every directory from the start up to / can be listed (the start directory exists)"]
+               "find_complete assumes every directory from the start up to / can be listed (the start directory exists)",
+               "histories: a RELATIVE explicit start is only ever used from the working directory it was written for (whether "
+               "it is resolved at construction or at call time is not constrained); interpreter import state (sys.path, "
+               "sys.modules entries a load leaves behind) is reset between the calls of a history - the histories are about "
+               "the state of the loader object, the working directory and the filesystem"]
 
 KINDS = ["none", "module", "package", "both", "baredir"]
 NAMES = ["tasks", "mycoll"]
@@ -65,28 +77,43 @@ def write(path, text):
         f.write(text)
 
 
+def put_candidate(d, lvl, k, name):
+    """the files that make directory `d` (level `lvl`) hold a candidate of kind `k` for collection `name`"""
+    if k in ("module", "both"):
+        write(os.path.join(d, name + ".py"), MODULE_SRC % ("%d:module" % lvl))
+    if k in ("package", "both", "baredir"):
+        os.mkdir(os.path.join(d, name))
+        write(os.path.join(d, name, "invoke.yaml"), "marker: P%d\n" % lvl)
+        write(os.path.join(d, name, "psib.py"), "LEVEL = %d\n" % lvl)
+    if k in ("package", "both"):
+        write(os.path.join(d, name, "__init__.py"), PACKAGE_SRC % ("%d:package" % lvl))
+
+
+def del_candidate(d, name):
+    if os.path.exists(os.path.join(d, name + ".py")):
+        os.remove(os.path.join(d, name + ".py"))
+    shutil.rmtree(os.path.join(d, name), ignore_errors=True)
+
+
 class Tree:
     """base/d0/d1/...; level 0 is base itself"""
 
     def __init__(self, kinds, name):
         self.kinds, self.name = list(kinds), name
         self.root = os.path.realpath(tempfile.mkdtemp(prefix="verif_c20_"))
-        self.dirs = [os.path.join(self.root, "base")]
-        os.mkdir(self.dirs[0])
-        for i in range(1, len(kinds)):
-            self.dirs.append(os.path.join(self.dirs[-1], "d%d" % i))
-            os.mkdir(self.dirs[-1])
-        for lvl, (d, k) in enumerate(zip(self.dirs, kinds)):
-            write(os.path.join(d, "sibmark.py"), "LEVEL = %d\n" % lvl)
-            write(os.path.join(d, "invoke.yaml"), "marker: L%d\n" % lvl)
-            if k in ("module", "both"):
-                write(os.path.join(d, name + ".py"), MODULE_SRC % ("%d:module" % lvl))
-            if k in ("package", "both", "baredir"):
-                os.mkdir(os.path.join(d, name))
-                write(os.path.join(d, name, "invoke.yaml"), "marker: P%d\n" % lvl)
-                write(os.path.join(d, name, "psib.py"), "LEVEL = %d\n" % lvl)
-            if k in ("package", "both"):
-                write(os.path.join(d, name, "__init__.py"), PACKAGE_SRC % ("%d:package" % lvl))
+        try:
+            self.dirs = [os.path.join(self.root, "base")]
+            os.mkdir(self.dirs[0])
+            for i in range(1, len(kinds)):
+                self.dirs.append(os.path.join(self.dirs[-1], "d%d" % i))
+                os.mkdir(self.dirs[-1])
+            for lvl, (d, k) in enumerate(zip(self.dirs, kinds)):
+                write(os.path.join(d, "sibmark.py"), "LEVEL = %d\n" % lvl)
+                write(os.path.join(d, "invoke.yaml"), "marker: L%d\n" % lvl)
+                put_candidate(d, lvl, k, name)
+        except BaseException:
+            shutil.rmtree(self.root, ignore_errors=True)  # nothing is left behind when building the tree fails half-way
+            raise
 
     def close(self):
         shutil.rmtree(self.root, ignore_errors=True)
@@ -460,6 +487,374 @@ def canon_impl_virtual(r, name):
     return "exc:" + r.get("type", "?")
 
 
+# ------------------------------------------------------------------ histories on ONE loader object
+# The property speaks about the start point in effect AT THE TIME OF THE CALL and about the layout as it is then.
+# A history uses one (or several interleaved) FilesystemLoader object(s) many times: a loader without explicit start
+# from several working directories in sequence, a loader with an explicit start (argument, trailing separator,
+# tasks.search_root, relative) after os.chdir, `.start` read in between, `find` and `load`, two collection names in a
+# row, candidates appearing / disappearing between the calls.  After every call the oracle above is evaluated for the
+# start point and the layout of THAT call.  A case = (chains, loaders, explicit list of steps).
+
+class View:
+    """one chain of a forest, for one collection name, as the oracles above want to see a tree"""
+
+    def __init__(self, forest, ci, name):
+        self.root, self.dirs, self.kinds, self.name = forest.root, forest.dirs[ci], forest.kinds[ci][name], name
+
+
+class Forest:
+    """<tmp>/base<i>/d1/d2/...: one or two chains; every level may hold candidates for BOTH collection names"""
+
+    def __init__(self, chains):
+        self.kinds = [{n: list(ch[n]) for n in NAMES} for ch in chains]
+        self.root = os.path.realpath(tempfile.mkdtemp(prefix="verif_c20_"))
+        try:
+            self.dirs = []
+            for ci, ch in enumerate(self.kinds):
+                dirs = [os.path.join(self.root, "base%d" % ci)]
+                os.mkdir(dirs[0])
+                for i in range(1, len(ch[NAMES[0]])):
+                    dirs.append(os.path.join(dirs[-1], "d%d" % i))
+                    os.mkdir(dirs[-1])
+                for lvl, d in enumerate(dirs):
+                    write(os.path.join(d, "sibmark.py"), "LEVEL = %d\n" % lvl)
+                    write(os.path.join(d, "invoke.yaml"), "marker: c%d-L%d\n" % (ci, lvl))
+                    for n in NAMES:
+                        put_candidate(d, lvl, ch[n][lvl], n)
+                self.dirs.append(dirs)
+        except BaseException:
+            shutil.rmtree(self.root, ignore_errors=True)
+            raise
+
+    def close(self):
+        shutil.rmtree(self.root, ignore_errors=True)
+        for k in [k for k in sys.path_importer_cache if k.startswith(self.root)]:
+            sys.path_importer_cache.pop(k, None)
+
+    def change(self, ci, lvl, name, kind):
+        del_candidate(self.dirs[ci][lvl], name)
+        put_candidate(self.dirs[ci][lvl], lvl, kind, name)
+        self.kinds[ci][name][lvl] = kind
+
+    def layout(self):
+        lay = {}
+        a = self.root
+        while a != "/":
+            a = os.path.dirname(a)
+            lay[a] = [e for n in NAMES for e in (n + ".py", n) if os.path.lexists(os.path.join(a, e))]
+            for n in NAMES:
+                if os.path.isdir(os.path.join(a, n)):
+                    lay[os.path.join(a, n)] = ["__init__.py"] if os.path.exists(os.path.join(a, n, "__init__.py")) else []
+        lay[self.root] = sorted(os.listdir(self.root))
+        for dirs in self.dirs:
+            for d in dirs:
+                lay[d] = sorted(os.listdir(d))
+                for n in NAMES:
+                    if os.path.isdir(os.path.join(d, n)):
+                        lay[os.path.join(d, n)] = sorted(os.listdir(os.path.join(d, n)))
+        return lay
+
+
+@contextlib.contextmanager
+def hist_env(cwd):
+    """one call of a history: the process is in `cwd`; import state (sys.path, the modules a load leaves behind)
+    is reset around it - the histories are about the state of the LOADER object"""
+    with clean_imports(NAMES[0], cwd):
+        drop = tuple(NAMES)
+        for m in [m for m in sys.modules if m in drop or m.startswith(tuple(n + "." for n in NAMES))]:
+            del sys.modules[m]
+        try:
+            yield
+        finally:
+            for m in [m for m in sys.modules if m in drop or m.startswith(tuple(n + "." for n in NAMES))]:
+                del sys.modules[m]
+
+
+def loader_start(forest, spec):
+    """-> (start argument or None, constructor kwargs maker, (ci, lvl) of the explicit start or None, designated cwd or None)"""
+    st = spec["start"]
+    if st is None:
+        return None, None, None
+    kind = st[0]
+    if kind in ("abs", "trailing", "config"):
+        ci, lvl = st[1], st[2]
+        return forest.dirs[ci][lvl] + ("/" if kind == "trailing" else ""), (ci, lvl), None
+    if kind == "rel":  # relative start: only ever used from the working directory it was written for
+        ci, lvl, cl = st[1], st[2], st[3]
+        rel = os.path.relpath(forest.dirs[ci][lvl], forest.dirs[ci][cl])
+        return rel, (ci, lvl), (ci, cl)
+    raise ValueError(kind)
+
+
+def make_loader(forest, spec):
+    from invoke import Config
+    from invoke.loader import FilesystemLoader
+    start, _, _ = loader_start(forest, spec)
+    if spec["start"] is not None and spec["start"][0] == "config":
+        return FilesystemLoader(config=Config(overrides={"tasks": {"search_root": start}}))
+    return FilesystemLoader(start=start) if start is not None else FilesystemLoader()
+
+
+def call_load(loader, name):
+    from invoke.exceptions import CollectionNotFound
+    before = list(sys.path)
+    try:
+        mod, parent = loader.load(name)
+        added = [p for p in sys.path if p not in before]
+        return {"r": "ok", "file": mod.__file__, "parent": parent, "mark": getattr(mod, "MARK", None),
+                "sib": getattr(mod, "SIB", None), "syspath": added[0] if added else None}
+    except CollectionNotFound:
+        return {"r": "notfound"}
+    except Exception as e:  # noqa
+        return {"r": "exc", "type": type(e).__name__, "detail": str(e)[:200]}
+
+
+def call_find(loader, name):
+    from invoke.exceptions import CollectionNotFound
+    try:
+        spec = loader.find(name)
+    except CollectionNotFound:
+        return {"r": "notfound"}
+    except Exception as e:  # noqa
+        return {"r": "exc", "type": type(e).__name__, "detail": str(e)[:200]}
+    if spec is None:
+        return {"r": "none"}
+    return {"r": "ok", "file": spec.origin, "pkg": bool(spec.submodule_search_locations)}
+
+
+def oracle_find(view, s, r):
+    strict, lenient = expected_levels(view.kinds, s)
+    if r["r"] in ("exc", "none"):
+        return "find() raised/returned %s (%s)" % (r.get("type") or "None", r.get("detail"))
+    if r["r"] == "notfound":
+        if strict is None:
+            return None
+        return "CollectionNotFound although level %d (at or above the start level %d) holds a %s" % (strict, s, view.kinds[strict])
+    f = os.path.abspath(r["file"])
+    d = os.path.dirname(os.path.dirname(f)) if r["pkg"] else os.path.dirname(f)
+    if d not in view.dirs:
+        if strict is None and candidate_above(view):
+            return None
+        return "found %r which is not at or above the start directory %r" % (r["file"], view.dirs[s])
+    lvl = view.dirs.index(d)
+    if lvl not in (strict, lenient):
+        return "found %r (level %d), the nearest candidate at or above start level %d is level %s" % (r["file"], lvl, s, strict)
+    want = os.path.join(d, view.name, "__init__.py") if r["pkg"] else os.path.join(d, view.name + ".py")
+    if f != want or not os.path.isfile(f):
+        return "found %r, expected %r" % (r["file"], want)
+    return None
+
+
+def project_marker(parent):
+    """the project-level configuration found when `parent` is taken as the project location"""
+    from invoke import Config
+    try:
+        c = Config()
+        c.set_project_location(parent)
+        c.load_project()
+        return c.get("marker", None)
+    except Exception as e:  # noqa
+        return "raised %s" % type(e).__name__
+
+
+def gen_loader_history(rng):
+    weights = [("none", 40), ("module", 25), ("package", 20), ("both", 5), ("baredir", 10)]
+    pool = [k for k, w in weights for _ in range(w)]
+    for _try in range(20):
+        nch = rng.choice([1, 2, 2])
+        chains = []
+        for _ in range(nch):
+            levels = rng.choice([2, 3, 3, 4])
+            chains.append({n: [rng.choice(pool) for _ in range(levels)] for n in NAMES})
+        spots = [(ci, l) for ci, ch in enumerate(chains) for l, k in enumerate(ch[NAMES[0]]) if k in ("module", "package", "both")]
+        if len(spots) >= 2:
+            break
+    places = [(ci, l) for ci, ch in enumerate(chains) for l in range(len(ch[NAMES[0]]))]
+    loaders = [{"start": None}]
+    r = rng.random()
+    if r < 0.65:
+        ci, lvl = rng.choice(places)
+        kind = rng.choice(["abs", "abs", "trailing", "config", "rel"])
+        if kind == "rel":
+            loaders.append({"start": ["rel", ci, lvl, rng.randrange(len(chains[ci][NAMES[0]]))]})
+        else:
+            loaders.append({"start": [kind, ci, lvl]})
+    if rng.random() < 0.25:
+        loaders.append({"start": None})
+    steps = []
+    kinds = [{n: list(ch[n]) for n in NAMES} for ch in chains]
+    for _ in range(rng.randint(4, 10)):
+        r = rng.random()
+        if r < 0.12:
+            ci, lvl = rng.choice(places)
+            n = rng.choice(NAMES)
+            cur = kinds[ci][n][lvl]
+            new = rng.choice(["module", "package"]) if cur == "none" else ("none" if cur in ("module", "package") else None)
+            if new is None:
+                continue
+            kinds[ci][n][lvl] = new
+            steps.append({"op": "change", "chain": ci, "level": lvl, "name": n, "kind": new})
+            continue
+        j = 0 if (len(loaders) == 1 or rng.random() < 0.5) else rng.randrange(1, len(loaders))
+        st = loaders[j]["start"]
+        cwd = list(rng.choice(places))
+        if st is not None and st[0] == "rel":
+            cwd = [st[1], st[3]]
+        if r < 0.22:
+            steps.append({"op": "start", "loader": j, "cwd": cwd})
+        else:
+            steps.append({"op": "load" if rng.random() < 0.7 else "find", "loader": j, "cwd": cwd,
+                          "name": NAMES[0] if rng.random() < 0.7 else NAMES[1]})
+    return {"kind": "history", "chains": chains, "loaders": loaders, "steps": steps}
+
+
+def history_features(case):
+    """what a history exercises (computed from the case alone)"""
+    f = set()
+    last = {}  # loader -> (cwd, name) of its previous call
+    used = set()
+    changed_since = {}
+    for st in case["steps"]:
+        if st["op"] == "change":
+            for j in used:
+                changed_since[j] = True
+            continue
+        j = st["loader"]
+        explicit = case["loaders"][j]["start"] is not None
+        if st["op"] == "start":
+            f.add("start_read_then_used" if not explicit else "start_read_explicit")
+            last.setdefault(j, (tuple(st["cwd"]), None))
+            used.add(j)
+            continue
+        prev = last.get(j)
+        if prev is not None:
+            if prev[0] != tuple(st["cwd"]):
+                f.add("explicit_start_loader_reused_after_chdir" if explicit else "nostart_loader_reused_in_other_cwd")
+                if not explicit and prev[0][0] != st["cwd"][0]:
+                    f.add("nostart_loader_reused_in_other_chain")
+            if prev[1] is not None and prev[1] != st["name"]:
+                f.add("loader_asked_for_other_name")
+            if changed_since.pop(j, False):
+                f.add("layout_changed_between_calls_of_one_loader")
+        if len(used | {j}) > 1:
+            f.add("loaders_interleaved")
+        last[j] = (tuple(st["cwd"]), st["name"])
+        used.add(j)
+        f.add("op_" + st["op"])
+    return f
+
+
+def run_loader_history(case, want_model=False):
+    """-> (index of the first failing step or None, why, model lines [(line, expected answers, modes)], stats)"""
+    forest = Forest(case["chains"])
+    old_cwd = os.getcwd()
+    stats = {}
+    try:
+        os.chdir(forest.root)  # loaders are created somewhere else than where they are used
+        try:
+            loaders = [make_loader(forest, sp) for sp in case["loaders"]]
+        finally:
+            os.chdir(old_cwd)
+        starts = [loader_start(forest, sp) for sp in case["loaders"]]
+        msteps = [["fs=%s" % enc_layout(forest.layout())] for _ in loaders]
+        mcwd = [None for _ in loaders]
+        answers = [[] for _ in loaders]
+        for k, st in enumerate(case["steps"]):
+            if st["op"] == "change":
+                forest.change(st["chain"], st["level"], st["name"], st["kind"])
+                importlib.invalidate_caches()
+                if want_model:
+                    lay = "fs=%s" % enc_layout(forest.layout())
+                    for ms in msteps:
+                        ms.append(lay)
+                continue
+            j = st["loader"]
+            loader = loaders[j]
+            ci, lvl = st["cwd"]
+            cwd = forest.dirs[ci][lvl]
+            if mcwd[j] != cwd:
+                msteps[j].append("cd=%s" % enc_path(cwd))
+                mcwd[j] = cwd
+            if st["op"] == "start":
+                with hist_env(cwd):
+                    getattr(loader, "start", None)
+                msteps[j].append("start")
+                continue
+            # the start point in effect now: the explicit one, else the working directory of THIS call
+            eci, elvl = starts[j][1] if starts[j][1] is not None else (ci, lvl)
+            view = View(forest, eci, st["name"])
+            with hist_env(cwd):
+                if st["op"] == "load":
+                    r = call_load(loader, st["name"])
+                else:
+                    r = call_find(loader, st["name"])
+            why = oracle_loader(view, elvl, r) if st["op"] == "load" else oracle_find(view, elvl, r)
+            if why is None and st["op"] == "load" and r["r"] == "ok" and os.path.abspath(r["parent"]) in view.dirs:
+                plvl = view.dirs.index(os.path.abspath(r["parent"]))
+                got = project_marker(r["parent"])
+                if got != "c%d-L%d" % (eci, plvl):
+                    why = ("project-level configuration read from the wrong place: marker %r, the invoke.yaml next to the "
+                           "loaded collection says %r" % (got, "c%d-L%d" % (eci, plvl)))
+            stats["result:" + r["r"]] = stats.get("result:" + r["r"], 0) + 1
+            if why:
+                what = "no explicit start" if starts[j][1] is None else "explicit start %r" % (starts[j][0],)
+                msg = ("step %d: loader #%d (%s) used for the %s time, %s(%r) with working directory %s: %s"
+                       % (k, j, what, nth(sum(1 for x in case["steps"][:k + 1] if x.get("loader") == j and x["op"] in ("load", "find"))),
+                          st["op"], st["name"], os.path.relpath(cwd, forest.root), why))
+                return k, msg.replace(forest.root, "<tmp>"), [], stats
+            msteps[j].append("load=%s" % enc_chars(st["name"]))
+            if st["op"] == "load":
+                answers[j].append(canon_impl(r))
+            else:
+                answers[j].append("notfound" if r["r"] == "notfound" else
+                                  "%s %s" % ("package" if r["pkg"] else "module", enc_path(os.path.abspath(r["file"]))))
+        lines = []
+        if want_model:
+            for j, sp in enumerate(case["loaders"]):
+                if not answers[j]:
+                    continue
+                start = starts[j][0]
+                enc_start = "-" if start is None else "%d,%s" % (1 if start.startswith("/") else 0,
+                                                                 "/".join(enc_chars(c) if c else "e" for c in start.split("/")))
+                lines.append(("hist %s %s" % (enc_start, " ".join(msteps[j])), answers[j]))
+        return None, None, lines, stats
+    finally:
+        os.chdir(old_cwd)
+        forest.close()
+
+
+def nth(n):
+    return {1: "1st", 2: "2nd", 3: "3rd"}.get(n, "%dth" % n)
+
+
+def enc_layout(layout):
+    return ";".join("%s:%s" % (enc_path(d), ",".join(enc_chars(e) for e in ents)) for d, ents in sorted(layout.items())) or "-"
+
+
+def run_histories(ctx, out, lines, pending):
+    rng = ctx.rng
+    for _ in range(ctx.n(160, 2500)):
+        case = gen_loader_history(rng)
+        feats = history_features(case)
+        for f in feats:
+            out.hist["hist:" + f] += 1
+        out.hist["histories"] += 1
+        out.case(case, bool(feats & {"nostart_loader_reused_in_other_cwd", "explicit_start_loader_reused_after_chdir"}))
+        try:
+            at, why, mlines, stats = run_loader_history(case, want_model=ctx.model_ok)
+        except Exception as e:  # noqa
+            at, why, mlines, stats = len(case["steps"]) - 1, "history raised %s: %s" % (type(e).__name__, e), [], {}
+        for k, v in stats.items():
+            out.hist["hist:" + k] += v
+        if why:
+            out.hist["oracle:history"] += 1
+            out.fail(dict(case, steps=case["steps"][:at + 1]), "[history on one loader] " + why)
+            continue
+        for line, answers in mlines:
+            lines.append(line)
+            pending.append((case, answers))
+
+
 # ------------------------------------------------------------------ replay
 
 def replay(case):
@@ -470,6 +865,9 @@ def replay(case):
         r = vfind(dirs, chain[case["start"]], case["name"])
         why = oracle_virtual(case, r)
         return why is None, why or "ok %s" % r
+    if case.get("kind") == "history":
+        at, why, _, _ = run_loader_history(case)
+        return why is None, why or "ok (history of %d steps on %d loader object(s))" % (len(case["steps"]), len(case["loaders"]))
     import random
     tree = Tree(case["kinds"], case["name"])
     try:
@@ -561,11 +959,20 @@ def run(ctx):
                         pending.append((case, canon_impl_virtual(r, case["name"])))
     else:
         ctx.notes.append("virtual filesystem shim not effective (invoke.loader no longer uses its module-level os); root cases skipped")
+    run_histories(ctx, out, lines, pending)
     model = drv.run(lines) if (ctx.model_ok and lines) else [None] * len(lines)
     for (case, impl), m in zip(pending, model):
         if m is None:
             continue
         out.traces += 1
+        if isinstance(impl, list):  # a history on one loader object: one answer per load/find, in order
+            got = m.split("|") if m else []
+            want = impl
+            if len(got) == len(want):
+                got = [g if len(w.split(" ")) != 2 else " ".join(g.split(" ")[:2]) for g, w in zip(got, want)]  # find: kind + file
+            if got != want:
+                out.disagree(case, "|".join(want), m)
+            continue
         mres, _, hyp = m.rpartition(" ")
         out.hist["theorem_hyp_dirs_listable:" + hyp] += 1
         if impl != mres:
@@ -580,7 +987,13 @@ LEVEL_TEXT = ("Lean 4 proof (find_nearest, find_kind, find_complete, not_found, 
               "relative_start_resolved) that for every filesystem, working directory, start argument and collection name the "
               "modelled FilesystemLoader.find/Loader.load reports the nearest directory at or above the start that holds "
               "name.py or name/__init__.py, with the project directory being that directory; completeness (find_complete) is proved at full strength incl. the filesystem root "
-              "(the pre-repair rule survives as a counterexample theorem). The model is tied to invoke.loader on every "
+              "(the pre-repair rule survives as a counterexample theorem); over HISTORIES on one loader object (chdir, "
+              "filesystem changes, loads, reads of .start) every answer depends only on the construction-time start and on the "
+              "working directory and filesystem at the time of the call (history_load_depends_only_on_current_world), a loader "
+              "without explicit start walks up from the working directory of the call (default_start_is_cwd_of_the_call, "
+              "history_load_is_nearest_of_current_cwd), one with an explicit absolute start ignores it "
+              "(explicit_absolute_start_ignores_cwd) - the same histories are replayed on one real FilesystemLoader and on "
+              "the model (driver op hist). The model is tied to invoke.loader on every "
               "run by a differential check on real temporary directory trees (all layouts up to the bound x all start "
               "directories x six start forms), a Program-level check of the project invoke.yaml, and a direct oracle "
               "('first ancestor containing it')")
